@@ -8,10 +8,21 @@
    namespace, top-level names pairwise distinct across the three namespaces, per-enum distinct
    variant names and symbol sequences, capitalisation rules.  Also: the validated file is the
    input (same declarations in the same order).
-   NOT proved: C10_errors_truthful (validate_ast f = Err e -> e describes a violation present
-   at the reported positions); decided per input by the check's oracle (oracles.wf_check). *)
+   AND the second half, for every AST:
+     validate_ast f = Err e  ->  truthful f e
+   where truthful (Ast/Truthful.v) says, error variant by error variant, that the violation the
+   error names is present in the file at the positions it carries: the undefined name occurs as
+   a reference (or as the start symbol) at that position and is not declared in its namespace;
+   a name clash names two different declarations of that name, the first before the second; a
+   capitalisation error points at a declared name / variant / field that breaks the rule; a
+   variant clash names two variants of one enum with that name / that symbol sequence; the
+   missing/multiple start and terminal-enum errors count the declarations (and list their
+   positions).  For a source text: generate = Ok implies the parsed file is WF, and a validation
+   error of generate is truthful for the parsed file (theorems C10_generate_ok_only... and C10_generate_validation... below).
+   The positions are those stored in the AST; that they are the byte offsets of the tokens in
+   the source is Lex/Spans.v (C07) and the check's oracle (oracles.wf_check on the token stream). *)
 From Coq Require Import List.
-From Kiki Require Import Base.Ord Base.Chars Data Ast.Validate Ast.WF Ast.ValidateProofs.
+From Kiki Require Import Base.Ord Base.Chars Data Lex.Model Front.Parse Ast.Validate Ast.WF Ast.ValidateProofs Ast.Truthful Pipeline PipelineProofs.
 
 Theorem C10_accepts_only_well_formed_files : forall f v, validate_ast f = Ok v -> WF f.
 Proof. exact validate_ast_ok_WF. Qed.
@@ -22,5 +33,21 @@ Theorem C10_validated_file_is_the_input : forall f v, validate_ast f = Ok v ->
   (exists d, terminal_decls f = [d] /\ vt_name (vf_tenum v) = id_name (td_name d) /\ vt_attrs (vf_tenum v) = td_attrs d).
 Proof. exact validate_ast_ok_same_file. Qed.
 
+Theorem C10_errors_are_truthful : forall f e, validate_ast f = Err e -> truthful f e.
+Proof. exact validate_ast_err_truthful. Qed.
+
+Theorem C10_generate_ok_only_for_well_formed_files : forall ho digest src text,
+  generate_model ho digest src = Ok text ->
+  exists tokens ast, tokenize src = Ok tokens /\ front_parse (front_fuel (length tokens)) src tokens = Ok ast /\ WF ast.
+Proof. exact generate_ok_only_wf. Qed.
+
+Theorem C10_generate_validation_errors_are_truthful : forall ho digest src tokens ast e,
+  tokenize src = Ok tokens -> front_parse (front_fuel (length tokens)) src tokens = Ok ast ->
+  validate_ast ast = Err e -> generate_model ho digest src = Err e /\ truthful ast e.
+Proof. exact generate_validation_error_truthful. Qed.
+
 Print Assumptions C10_accepts_only_well_formed_files.
 Print Assumptions C10_validated_file_is_the_input.
+Print Assumptions C10_errors_are_truthful.
+Print Assumptions C10_generate_ok_only_for_well_formed_files.
+Print Assumptions C10_generate_validation_errors_are_truthful.
